@@ -10,7 +10,8 @@ enough, squaring), mpz/tdiv_q.c and mpz/tdiv_r.c (`MPZ_REALLOC (quot, nl - dl + 
 sufficient, and necessary: `mpz_tdiv_q_request_necessary` —, operands copied to temporary space when they are the output variable, the quotient of
 mpz_tdiv_r in temporary space), and mpf/urandomb.c on an mpf destination (a block of PREC + 1 limbs that is never reallocated: the clamp
 `nlimbs <= PREC + 1` keeps `_gmp_rand`, the in-place shift and the strip loop inside it; op `as4_mpf_urandomb` with the Mersenne Twister model of C19)
-in lean/Mpir/Model/AllocSafeMpz4.lean.  Ops `as4_*`
+in lean/Mpir/Model/AllocSafeMpz4.lean; mpz/sqrt.c (fresh block of (op_size + 1) / 2 limbs / temporary copy when root is op; its `free_me`
+arm proved dead).  Ops `as4_*`
 (harness/ops_allocsafe4.c) run the real function on objects of the GIVEN allocations in every alias mode and compare ALLOC(w), SIZ(w)
 and the value with the model's run."""
 from genlib import *
@@ -25,7 +26,8 @@ THEOREMS = ["Mpir.AllocSafe." + t for t in (
     "Wrote.rd_src", "mpz_mul_alloc_safe", "mul_refines", "mulGeneric_refines", "mulTail_refines", "tmp_copy_spec", "Den.fresh",
     "mpz_tdiv_q_alloc_safe", "mpz_tdiv_q_request_necessary", "mpz_tdiv_r_alloc_safe", "tdiv_q_refines", "tdiv_r_refines",
     "Spec.tdiv_q_spec", "Spec.tdiv_r_spec", "copyIfSame_spec",
-    "mpf_urandomb_dest_safe", "mpf_urandomb_seeded_unsafe", "mpf_urandomb_fin_spec")]
+    "mpf_urandomb_dest_safe", "mpf_urandomb_seeded_unsafe", "mpf_urandomb_fin_spec",
+    "mpz_sqrt_alloc_safe", "mpz_sqrt_free_me_dead", "sqrt_refines", "Spec.sqrt_spec", "sqrtTail_refines")]
 TRUSTED = ["hand-written size-aware models lean/Mpir/Model/AllocSafeMpz4.lean (mpz/aorsmul_i.c, aorsmul.c on the memory model of AllocSafe.lean; "
            "TMP_ALLOC_LIMBS (tsize) = a block of its own that no variable points to; mpn_mul = the schoolbook product written to "
            "[0, xn+yn) of its destination; mpn_tdiv_q / mpn_tdiv_qr = their contracts (C02 tdiv_q_contract / tdiv_qr_contract): exactly nl-dl+1 quotient "
@@ -39,7 +41,7 @@ RULE = ("allocsafe4: addmul_ui/submul_ui/addmul/submul with every sign combinati
         "aorsmul_i.c:169, products with a zero top limb, one-limb multiplier in either position, all five alias modes, destination allocation "
         "exact / need-1 / need / generous")
 
-PINS = [("mpz/aorsmul_i.c", None), ("mpz/aorsmul.c", None), ("mpz/mul.c", None), ("mpz/tdiv_q.c", None), ("mpz/tdiv_r.c", None), ("mpf/urandomb.c", None)]
+PINS = [("mpz/aorsmul_i.c", None), ("mpz/aorsmul.c", None), ("mpz/mul.c", None), ("mpz/tdiv_q.c", None), ("mpz/tdiv_r.c", None), ("mpf/urandomb.c", None), ("mpz/sqrt.c", None)]
 
 def nl(x): return (abs(x).bit_length() + 63) // 64
 
@@ -179,6 +181,24 @@ def gen_furandomb(rng):
     nb = rng.choice([0, 1, 63, 64, 65, cap - 64, cap - 1, cap, cap + 1, cap + 63, cap + 64, cap + 65, 2 * cap, rng.randrange(1, cap + 130)])
     return "as4_mpf_urandomb %x %x %x" % (rng.getrandbits(rng.choice([1, 32, 64])), pb, max(nb, 0))
 
+def gen_sqrt(rng):
+    """mpz_sqrt: odd / even limb counts, perfect squares and their neighbours (root at a limb boundary), all ones, 0, negative, in place
+    (block large enough: temporary copy) and into blocks below / at / above (op_size + 1) / 2"""
+    c = rng.randrange(9)
+    k = rng.randrange(1, 8)
+    r = special(rng, (k + 1) // 2) or 1
+    if c == 0: u = r * r
+    elif c == 1: u = r * r - 1
+    elif c == 2: u = r * r + 2 * r                                    # (r+1)^2 - 1
+    elif c == 3: u = B ** k - 1
+    elif c == 4: u = B ** (k - 1)
+    elif c == 5: u = 0
+    elif c == 6: u = -special(rng, k) or -1
+    else: u = abs(rand_int(rng, 9))
+    need = (nl(u) + 1) // 2 or 1
+    w = sgnd(rng, special(rng, rng.randrange(1, 4)))
+    return "as4_sqrt %x %s %s" % (rng.randrange(2), obj(rng, w, need), obj(rng, u, need))
+
 def gen_ops(rng, tier, ctx=None):
     n = 1000 if tier == "quick" else 12000
     for _ in range(n):
@@ -190,6 +210,7 @@ def gen_ops(rng, tier, ctx=None):
         yield gen_div(rng, "as4_tdiv_q")
         yield gen_div(rng, "as4_tdiv_r")
         if _ % 4 == 0: yield gen_furandomb(rng)
+        if _ % 2 == 0: yield gen_sqrt(rng)
 
 def nontrivial(line):
     return line if line.startswith("as4_") else None
